@@ -7,3 +7,10 @@ META["C15"] = {
     "note": "Trusted: go/ssa translation, symgo instruction semantics, z3 5.1.0. Symbolic runes are ASCII; bound = runes per scan step (quick 4, thorough 6). ParseSrc totality on whole inputs and compositionality at parser level are claimed only where the evidence lists their harnesses.",
     "technique": "symbolic execution of go/ssa + SMT (z3), inductive step lemma, native replay",
 }
+
+META["C17"] = {
+    "text": "Step lemma over every AST node kind (table derived from go/types over the current ast package at check time): the real astutil.Walk, executed symbolically on a node of each kind whose every child field holds distinct leaves, returns nil, presents the node before its children and every child exactly once; with a callback failing at a symbolic call index Walk returns that error and stops. Induction on the tree gives completeness for every parsed program.",
+    "design_ref": "DESIGN.md §5 C17",
+    "note": "Node kinds and list lengths (0..2) are enumerated by forking; the early-stop index is solver-decided. Trusted: go/ssa, symgo semantics, the induction argument.",
+    "technique": "symbolic execution of go/ssa + SMT (z3), per-node-kind step lemma, native replay",
+}
